@@ -152,6 +152,9 @@ def run(ctx):
             except Exception as ex:  # noqa: BLE001
                 ctx.violation(sig + "/raises", {"kind": "models-conv", "case": c, "error": repr(ex)})
                 continue
+            if not hasattr(m, fld):
+                ctx.violation(f"Models/convert/{c['model']}.{fld}/missing", {"kind": "models-conv", "case": c, "error": "the model has no such field"})
+                continue
             got = getattr(m, fld)
             wire = getattr(msg, fld)
             ok = True
